@@ -1305,8 +1305,8 @@ trait RecordD {
         proof { lemma_ps_empty(self.b(), self.f(), old(self).cursor(), self.state == State::Finished); assert(rset.buf_positions@ =~= Seq::<BufferPosition>::empty()); }
 //@loop 0 kw=while
             invariant_except_break
-                n_records matches Some(m) ==> rset.n() < m,
-                self.state != State::Finished && self.incomplete_pos is Some && rset.n() > 0 ==> !is_new,
+                [C04|fastq.read_set.inv.below_requested_count] n_records matches Some(m) ==> rset.n() < m,
+                [C04,C06|fastq.read_set.inv.no_compaction_once_a_record_is_held] self.state != State::Finished && self.incomplete_pos is Some && rset.n() > 0 ==> !is_new,
             invariant
                 [C03,C04,C05,C06|fastq.read_set.inv.state] self.rs_a(old(self), rset, is_new, n_records),
                 [C03,C04,C05,C06|fastq.read_set.inv.positions_valid] self.rs_b(rset),
